@@ -34,6 +34,8 @@ theorem toBase10_isDecimal (n : Nat) : ∀ c ∈ toBase 10 n, isDecimal c = true
 /-- a URL name: not empty, no `/` -/
 def NameOk (name : Str) : Prop := name ≠ [] ∧ ∀ c ∈ name, c ≠ 47
 
+instance (name : Str) : Decidable (NameOk name) := by unfold NameOk; infer_instance
+
 theorem stripPrefix_append (p s : Str) : stripPrefix p (p ++ s) = some s := by
   induction p with
   | nil => cases s <;> rfl
